@@ -866,14 +866,50 @@ func genGoMod(r *rand.Rand) gcase {
 		lines = append(lines, "toolchain go"+tv+pick(r, []string{"", "-custom"}), "")
 		stdVer = tv
 	}
-	// replace directives: versioned, unversioned, to another module; never chained, never to a local path (those classes are generated separately)
+	// replace directives: versioned, unversioned, to another module; never to a local path. The expectation follows the go command's published
+	// rule ("go.mod reference", replace directives): a directive with a version on its left side applies to exactly that version of the module
+	// and takes precedence over one without a version, wherever the two are written; replacements are NOT applied to each other's results.
 	final2 := map[string]nv{}
 	for _, q := range reqs {
 		final2[q.path] = nv{q.path, strings.TrimPrefix(q.ver, "v")}
 	}
 	var reps []string
+	shapes := ""
+	fork := func() (string, string) {
+		return "example.org/fork/" + word(r, lower, 1, 6), "v" + fmt.Sprint(r.Intn(2)) + "." + num(r, 30) + "." + num(r, 30)
+	}
 	for _, q := range reqs {
 		if r.Intn(8) != 0 {
+			continue
+		}
+		if k := r.Intn(10); k < 5 {
+			xp, xv := fork()
+			yp, yv := fork()
+			switch k {
+			case 0, 1: // both kinds for the same module, in both orders: the version-specific one wins
+				a, b := q.path+" "+q.ver+" => "+xp+" "+xv, q.path+" => "+yp+" "+yv
+				if k == 1 {
+					a, b = b, a
+				}
+				reps = append(reps, a, b)
+				final2[q.path] = nv{xp, strings.TrimPrefix(xv, "v")}
+				shapes += fmt.Sprintf("-both%d", k)
+			case 2: // a replacement whose result is the left side of another wildcard directive: not chained
+				reps = append(reps, q.path+" => "+xp+" "+xv, xp+" => "+yp+" "+yv)
+				final2[q.path] = nv{xp, strings.TrimPrefix(xv, "v")}
+				shapes += "-chainw"
+			case 3: // the same through a version-specific first directive
+				reps = append(reps, q.path+" "+q.ver+" => "+xp+" "+xv, xp+" => "+yp+" "+yv)
+				final2[q.path] = nv{xp, strings.TrimPrefix(xv, "v")}
+				shapes += "-chains"
+			case 4: // a pin to another version of the SAME path (version-specific), and a wildcard directive for the path: the pin wins
+				reps = append(reps, q.path+" "+q.ver+" => "+q.path+" "+xv, q.path+" => "+yp+" "+yv)
+				final2[q.path] = nv{q.path, strings.TrimPrefix(xv, "v")}
+				shapes += "-pin"
+			}
+			if r.Intn(2) == 0 { // the directives need not be adjacent
+				reps = append(reps[:len(reps)-1], "example.net/unrelated/"+word(r, lower, 1, 6)+" => "+yp+" "+yv, reps[len(reps)-1])
+			}
 			continue
 		}
 		np, nver := "example.org/fork/"+word(r, lower, 1, 6), "v"+fmt.Sprint(r.Intn(2))+"."+num(r, 30)+"."+num(r, 30)
@@ -956,7 +992,7 @@ func genGoMod(r *rand.Rand) gcase {
 	if final {
 		s += nl
 	}
-	cls := fmt.Sprintf("wf-crlf%v-fin%v-block%v-rep%d", nl == "\r\n", final, block, len(reps))
+	cls := fmt.Sprintf("wf-crlf%v-fin%v-block%v-rep%d%s", nl == "\r\n", final, block, len(reps), shapes)
 	c := gcase{format: "gomod", data: []byte(s), expect: exp, known: true, class: cls}
 	// go < 1.17 (the go directive, or the toolchain when there is one): go.mod does not list indirect requirements, the extractor adds the
 	// modules of go.sum (every "<module> <version> h1:…" line; "<version>/go.mod" lines are hashes of go.mod files). Merge by (name, version).
